@@ -120,10 +120,38 @@ def parseFrame : Sx → Option (List Msg)
   | .list [.atom "ioerr", .atom "f"] => some [Msg.ioerr false]
   | _ => none
 
+/-- the typed view of a frame, when the harness delivers one: (parameters-or-{} , typed value or none) -/
+def typedOfFrame : Sx → Option (Json × Option Json)
+  | .list [.atom "f", _, d, ty] | .list [.atom "part", _, d, ty] =>
+    match parseReply d with
+    | some r => some (r.parameters.getD (.obj []), match ty with | .atom "-" => none | x => toJson x)
+    | none => none
+  | _ => none
+
+def stripTyped : Sx → Sx
+  | .list [.atom "f", b, d, _] => .list [.atom "f", b, d]
+  | .list [.atom "part", b, d, _] => .list [.atom "part", b, d]
+  | x => x
+
+/-- the decoder of a case: `MReply = Value`, or the table the real serde produced for the typed reply -/
+def decoderOf (rtype : Sx) (groups : Sx) : Decoder :=
+  match rtype with
+  | .list [.atom "rtype", .atom "typed"] =>
+    let frames : List Sx := match groups with
+      | .list (.atom "groups" :: gs) => gs.flatMap fun g => match g with
+        | Sx.list (Sx.atom "g" :: _ :: fs) => fs
+        | _ => []
+      | _ => []
+    let table := frames.filterMap typedOfFrame
+    fun j => match table.find? (fun e => e.1 == j) with
+      | some e => e.2
+      | none => none
+  | _ => decValue
+
 def parseGroups : Sx → Option (List (Bool × List Msg))
   | .list (.atom "groups" :: gs) => gs.mapM fun g => match g with
     | Sx.list (Sx.atom "g" :: Sx.atom c :: fs) => do
-      let fs ← fs.mapM parseFrame
+      let fs ← (fs.map stripTyped).mapM parseFrame
       pure (c == "t", fs.flatten)
     | _ => none
   | _ => none
@@ -157,11 +185,11 @@ def obsSx (trace : List (Nat × Res)) (log : List Request) (slots : Option Conn)
 
 def mkObjs (objs : List (String × Json)) : List MCall := objs.map fun (m, p) => MCall.new m p
 
-def runSeqCase (objs : List (String × Json)) (ops : List Op) (groups : List (Bool × List Msg)) (wb : Option Nat) : Sx :=
+def runSeqCase (dec : Decoder) (objs : List (String × Json)) (ops : List Op) (groups : List (Bool × List Msg)) (wb : Option Nat) : Sx :=
   let g0 : GState := {
     wire := { queue := ((groups[0]?).getD (false, [])).2, closed := ((groups[0]?).getD (false, [])).1, wbudget := wb },
     objs := mkObjs objs, progs := [ops] }
-  let g := runSeq (scriptPeer groups) (2 * ops.length + 2) g0
+  let g := runSeq (scriptPeer groups) dec (2 * ops.length + 2) g0
   let blocked := (g.progs[0]?).getD [] != []
   obsSx g.trace g.wire.log (if blocked then none else some g.conn) blocked
 
@@ -171,7 +199,7 @@ def parseProgs : Sx → Option (List (List Op))
 
 def runGatedCase (objs : List (String × Json)) (progs : List (List Op)) (sched : List Nat) : Sx :=
   let g0 : GState := { objs := mkObjs objs, progs := progs }
-  let g := runSched echoPeer g0 sched
+  let g := runSched echoPeer decValue g0 sched
   obsSx g.trace g.wire.log (some g.conn) false
 
 def threadOfReq' (r : Request) : Option Nat := threadOfReq r
@@ -180,7 +208,7 @@ def threadOfReq' (r : Request) : Option Nat := threadOfReq r
 def runFreeCase (objs : List (String × Json)) (progs : List (List Op)) : Sx :=
   let g0 : GState := { objs := mkObjs objs, progs := progs }
   let sched := (List.range progs.length).flatMap fun t => List.replicate (2 * ((progs[t]?).getD []).length + 2) t
-  let g := runSched echoPeer g0 sched
+  let g := runSched echoPeer decValue g0 sched
   let threads := (List.range progs.length).map fun t =>
     Sx.list ((g.trace.filter (·.1 == t)).map fun (_, r) => ofRes r)
   let logs := (List.range progs.length).map fun t =>
@@ -197,7 +225,13 @@ def runCase : Sx → Option Sx
     let ops ← parseOps "ops" ops
     let groups ← parseGroups groups
     let wb := asNat wb
-    pure (runSeqCase objs ops groups wb)
+    pure (runSeqCase decValue objs ops groups wb)
+  | .list [.atom "seq", objs, ops, groupsSx, wb, rtype] => do
+    let objs ← parseObjs objs
+    let ops ← parseOps "ops" ops
+    let groups ← parseGroups groupsSx
+    let wb := asNat wb
+    pure (runSeqCase (decoderOf rtype groupsSx) objs ops groups wb)
   | .list [.atom "gated", objs, progs, .list (.atom "sched" :: ts)] => do
     let objs ← parseObjs objs
     let progs ← parseProgs progs
@@ -250,17 +284,18 @@ def predCase (cs os : Sx) : Verdict :=
   | .list [.atom "kind", r], .list [.atom "kind-obs", k] =>
     match parseReply r, parseKind k with
     | some r, some k =>
-      (match expectedOutcome r, r.error with
+      (match expectedOutcome decValue r, r.error with
        | .err want, some _ => if k == want then none else some "error-kind-does-not-follow-from-the-error-name"
        | _, none => if k == .errorReply r then none else some "reply-without-error-not-kept-whole"
        | _, _ => some "internal")
     | _, _ => some "unparsable-kind-case"
-  | .list [.atom "seq", objs, ops, groups, wb],
+  | .list (.atom "seq" :: objs :: ops :: groupsSx :: wb :: rt),
     .list [.atom "obs", .list (.atom "res" :: res), .list (.atom "log" :: log), slots, blocked] =>
-    match parseObjs objs, parseOps "ops" ops, parseGroups groups, parseTrace res with
+    match parseObjs objs, parseOps "ops" ops, parseGroups groupsSx, parseTrace res with
     | some objs, some ops, some groups, some tr =>
       let (lg, raw) := parseLog log
-      P_C07_seq { objs, ops, groups, wbudget := asNat wb }
+      let dec : Decoder := match rt with | [r] => decoderOf r groupsSx | _ => decValue
+      P_C07_seq { objs, ops, groups, wbudget := asNat wb, dec := dec }
         { results := tr.map (·.2), log := lg, rawLog := raw, slots := parseSlots slots,
           blocked := (match blocked with | .atom "t" => true | _ => false) }
     | _, _, _, _ => some "unparsable-seq-case-or-observation"
@@ -299,6 +334,9 @@ def clientPred (prop caseLine obsLine : String) : String :=
   match parse caseLine, parse obsLine with
   | some cs, some os =>
     if prop == "C07" || prop == "C04" || prop == "C05" then
+      if (obsLine.splitOn "(other ").length > 1 then
+        "fail operation-panicked-or-failed-with-an-error-kind-outside-the-client-model"
+      else
       match ClientDrv.predCase cs os with
       | none => "ok"
       | some r => "fail " ++ r
